@@ -57,11 +57,11 @@ fn mk(kind: Kind, n: usize, p: usize, m: usize) -> Spec {
     }
 }
 /// reference variants at the exact scalar (two spellings of the constant 1.414 pi where the sources differ)
-fn reference(kind: Kind, n: usize, p: usize, m: usize, x: &[Q]) -> Vec<RefOut<Q>> {
+fn reference<T: Scalar>(kind: Kind, n: usize, p: usize, m: usize, x: &[T]) -> Vec<RefOut<T>> {
     match kind {
         Kind::SuperSmoother => vec![re::super_smoother(x, n, Angle::Product, Angle::Literal), re::super_smoother(x, n, Angle::Product, Angle::Product)],
         Kind::Roofing => vec![re::roofing(x, n, m, Angle::Literal, Angle::Product, Angle::Literal), re::roofing(x, n, m, Angle::Product, Angle::Product, Angle::Product)],
-        Kind::LaguerreFilter => vec![re::laguerre_filter(x, <Q as num::NumCast>::from(GAMMAS[p % GAMMAS.len()]).unwrap())],
+        Kind::LaguerreFilter => vec![re::laguerre_filter(x, <T as num::NumCast>::from(GAMMAS[p % GAMMAS.len()]).unwrap())],
         Kind::LaguerreRsi => vec![re::laguerre_rsi(x, n)],
         Kind::CyberCycle => vec![re::cyber_cycle(x, n)],
         Kind::TrendFlex => vec![re::trend_flex(x, n)],
@@ -174,6 +174,76 @@ fn check(exact: bool) -> impl Fn(&Case) -> Verdict + Send + Sync {
     }
 }
 
+/// very long f64 runs (past 2^16 and 2^17 updates): the crate's code at f64 against the same batch re-evaluation of the
+/// difference equations carried out at f64 (an independent transcription; both are stable recursions, so they differ by rounding
+/// noise only). ints = [kind, n, p, m, seed, len, shape]; inputs on the 1/8 grid.
+fn ultra_check(case: &Case) -> Verdict {
+    let (ki, n, p, m) = (case.ints[0] as usize, case.ints[1] as usize, case.ints[2] as usize, case.ints[3] as usize);
+    let (seed, len, shape) = (case.ints[4] as u64, case.ints[5] as usize, case.ints[6]);
+    let (kind, name, _) = KINDS[ki];
+    let spec = case.spec();
+    let id = format!("C11/{name}/ultra/f64");
+    let xs: Vec<f64> = gen::ultra_stream(seed, len, shape).into_iter().map(|k| k as f64 / 8.0).collect();
+    let refs = reference::<f64>(kind, n, p, m, &xs);
+    let outs = run_f64(spec, &xs);
+    let normalised = matches!(kind, Kind::LaguerreRsi | Kind::TrendFlex | Kind::ReFlex | Kind::Fisher | Kind::Pfe);
+    let mut mx = 0.0f64;
+    let (mut compared, mut exempt, mut beyond) = (0usize, 0usize, 0usize);
+    for t in 0..len {
+        mx = mx.max(xs[t].abs());
+        if refs[0].open[t] {
+            exempt += 1;
+            continue;
+        }
+        if normalised {
+            if let Some(Some(d)) = refs[0].denom.get(t) {
+                if d.abs() < 1e-6 * mx {
+                    exempt += 1;
+                    continue;
+                }
+            }
+        }
+        let wants: Vec<Option<f64>> = refs.iter().map(|r| r.out[t]).collect();
+        let ok = match outs[t] {
+            None => wants.iter().any(|w| w.is_none()),
+            Some(g) => {
+                if !g.is_finite() {
+                    return Verdict::fail(format!("{id}|nonfinite"), format!("{} after {} updates: reported {g} (stream: seed {seed}, len {len}, shape {shape}, grid 1/8)", spec.show(), t + 1));
+                }
+                let tol = if normalised { 1e-6 * (1.0 + g.abs()) } else { 1e-9 * mx };
+                if wants.iter().any(|w| w.map_or(true, |v| !v.is_finite())) {
+                    false
+                } else {
+                    let lo = wants.iter().flatten().fold(f64::INFINITY, |a, b| a.min(*b));
+                    let hi = wants.iter().flatten().fold(f64::NEG_INFINITY, |a, b| a.max(*b));
+                    g >= lo - tol && g <= hi + tol
+                }
+            }
+        };
+        if !ok {
+            let aspect = if outs[t].is_some() != wants[0].is_some() { "readiness" } else { "value" };
+            return Verdict::fail(format!("{id}|{aspect}"), format!("{} after {} updates: reported {:?} but the batch re-evaluation of its difference equations (at f64) gives {:?} (stream: seed {seed}, len {len}, shape {shape}, grid 1/8; inputs since {}: {:?})", spec.show(), t + 1, outs[t], wants, t.saturating_sub(8), &xs[t.saturating_sub(8)..=t]));
+        }
+        compared += 1;
+        if t >= 1 << 16 {
+            beyond += 1;
+        }
+    }
+    let mut l = vec![format!("shape_{shape}")];
+    if exempt > 0 {
+        l.push("open_or_ill_conditioned_steps".into());
+    }
+    Verdict::pass(compared >= 1000 && beyond >= 100, l)
+}
+fn ultra_strategy(ki: usize) -> impl Fn(Tier) -> BoxedStrategy<Case> + Send + Sync {
+    move |tier: Tier| {
+        let (kind, _, min_n) = KINDS[ki];
+        (prop_oneof![3 => min_n..=min_n + 12, 1 => 20usize..=64], 0usize..30, 1usize..=9, any::<u64>(), 0i64..4)
+            .prop_map(move |(n, p, m, seed, shape)| Case { spec: Some(mk(kind, n, p, m)), ints: vec![ki as i64, n as i64, p as i64, m as i64, (seed >> 1) as i64, tier.pick(135_000, 1_100_000) as i64, shape], a: Rat(1, 1), ..Default::default() })
+            .boxed()
+    }
+}
+
 pub fn clauses() -> Vec<Clause> {
     let mut v = vec![];
     for (ki, (kind, name, min_n)) in KINDS.iter().enumerate() {
@@ -181,6 +251,7 @@ pub fn clauses() -> Vec<Clause> {
         let rule = format!("N from the view's minimum ({min_n}) to {} (thorough {}), gamma grid / moving average in {{Sma, Ema, Alma}}(1..9) / Roofing M in 1..9; grammar stream of 0..{} values on a dyadic grid (flats, steps, ties, spikes). The crate's code at the exact scalar is compared at every step with a batch re-evaluation of the difference equations from the whole history (band spanned by the two spellings 1.414*pi / 4.4422 of the constant where the sources differ, widened by 2^-150 x scale). Labels list the branches of the piecewise definition that were taken. Non-trivial: >= N+2 steps compared and >= 3 distinct outputs.", if heavy { 16 } else { 24 }, if heavy { 64 } else { 200 }, if heavy { "3N+30" } else { "6N+40" });
         v.push(Clause::generated("C11", format!("C11/{name}/definition/Q"), rule.clone(), if heavy { 400 } else { 1200 }, if heavy { 8000 } else { 30_000 }, strategy(ki), check(true)).with_shard(if heavy { 25 } else { 100 }));
         v.push(Clause::generated("C11", format!("C11/{name}/definition/f64"), format!("{rule} f64 leg: the crate's code at f64 against the same exact reference; tolerance 1e-9 x (max|x| + 1) for the linear filters, 1e-6 (1 + |value|) for the normalised indicators, steps whose normalising denominator is below 1e-6 x scale exempt (counted)."), if heavy { 600 } else { 1500 }, if heavy { 12_000 } else { 40_000 }, strategy(ki), check(false)).with_shard(if heavy { 40 } else { 150 }));
+        v.push(Clause::generated("C11", format!("C11/{name}/ultra/f64"), "ultra-long histories: 135 000 values (thorough 1.1e6; past 2^16 and 2^17 updates) on the 1/8 grid derived from a generated seed (wide noise; walk with plateaus; zero stretches; ties around a level), N from the view's minimum to +12 (1 in 4: 20..64); the crate's code at f64 against an independent f64 transcription of the difference equations evaluated over the whole history, at every step; tolerance 1e-9 max|x| for the linear filters, 1e-6 (1 + |value|) for the normalised indicators, steps whose normalising denominator is below 1e-6 max|x| exempt. Non-trivial: >= 1000 steps compared, >= 100 of them beyond 2^16.", 2, 40, ultra_strategy(ki), ultra_check).with_shard(2));
     }
     v
 }
